@@ -995,3 +995,127 @@ Definition known_reset_while_pending (c : conf) (l : list tstep) : bool :=
              | _ => (c, pending, hit)
              end
          end) l (c, None, false)).
+
+(* ====================================================================================================
+   Round-4 additions (nothing above this line was changed; these monitors are not covered by
+   Proofs/DpOracleSound.v).
+   ==================================================================================================== *)
+
+(* ------------------------------------------------------------------ C07 with slow slaves
+   A healthy slave may report "station not ready" (without Prm_Req) for `ready_delay` diagnostics polls after
+   Chk_Cfg; the master has to keep polling it (ValidateConfig) and must not declare it Offline, since it
+   answers every request.  c07_monitor_slow is c07_monitor_ra with the recovery bound extended by twice the
+   largest scripted ready delay (each bring-up needs `delay` more cycles, and the recovery may contain two
+   bring-ups).  With delays <= 2 the theorem C07_recovery applies; longer delays are monitored only. *)
+Definition max_ready_delay (l : list tstep) : nat :=
+  fold_left (fun d s => match ts_in s with
+                        | InSlaveSet _ _ rd _ _ _ _ _ _ => Nat.max d rd
+                        | _ => d
+                        end) l 0%nat.
+
+Definition c07_step_slow (extra : nat) (st : conf * c07g) (i : nat) (s : tstep) : (conf * c07g) + Z :=
+  let (c0, g) := st in
+  let c := match reset_of c0 s with Some (k, _, a) => conf_set_addr c0 k a | None => c0 end in
+  let sl := c07_slave_step (g7_slaves g) (ts_in s) in
+  match ts_in s with
+  | InClean => inl (c, mkC07g sl true 0)
+  | _ =>
+      if negb (g7_clean g) then inl (c, mkC07g sl false 0) else
+      let cycles := if step_cc s then S (g7_cycles g) else g7_cycles g in
+      if Nat.ltb (c07_bound (p_max_retry (cf_params c)) + extra) cycles then
+        let bad :=
+          (fix go (k : nat) (os : list (option pobs)) : option Z :=
+             match os with
+             | [] => None
+             | Some o :: os' =>
+                 if healthy c sl k && negb (ob_running o) then Some 701
+                 else if silent_dev sl k && ob_live o then Some 702
+                 else go (S k) os'
+             | None :: os' => go (S k) os'
+             end) 0%nat (ts_obs s) in
+        match bad with
+        | Some code => inr code
+        | None => inl (c, mkC07g sl true cycles)
+        end
+      else inl (c, mkC07g sl true cycles)
+  end.
+
+Definition c07_monitor_slow (c : conf) (l : list tstep) : verdict :=
+  match ts_op (last l (mkStep InClean false OutUnit None [] OpStop)) with
+  | OpStop => None
+  | _ => run_monitor (c07_step_slow (2 * max_ready_delay l)) (c, mkC07g (c07_slaves0 c) false 0) 0 l
+  end.
+
+(* C07, reporting half: in the fault-free tail a healthy peripheral (it answers every request) is never
+   reported Offline.  Reason code 703. *)
+Definition c07_step_no_offline (st : conf * (list c07slave * bool)) (i : nat) (s : tstep)
+  : (conf * (list c07slave * bool)) + Z :=
+  let '(c0, (sl0, clean)) := st in
+  let c := match reset_of c0 s with Some (k, _, a) => conf_set_addr c0 k a | None => c0 end in
+  let sl := c07_slave_step sl0 (ts_in s) in
+  match ts_in s with
+  | InClean => inl (c, (sl, true))
+  | _ =>
+      if clean then
+        match step_event s with
+        | Some (a, EvOffline) =>
+            match pconf_of_addr c a with
+            | Some (k, _) => if healthy c sl k then inr 703 else inl (c, (sl, clean))
+            | None => inl (c, (sl, clean))
+            end
+        | _ => inl (c, (sl, clean))
+        end
+      else inl (c, (sl, clean))
+  end.
+
+(* an Offline event right at the start of the tail can still be the consequence of the fault phase (the
+   retries ran out before): only Offline events after the first Online of the tail... are judged simply by
+   skipping the first `grace` completed cycles *)
+Definition c07_no_offline_monitor (c : conf) (l : list tstep) : verdict :=
+  (* position of the step after which (max_retry + 4) cycles of the tail have been completed *)
+  let grace := (Z.to_nat (p_max_retry (cf_params c)) + 4)%nat in
+  let '(_, _, _, _, v) :=
+    fold_left (fun (acc : (conf * (list c07slave * bool)) * nat * nat * bool * verdict) (s : tstep) =>
+      let '(st, cycles, i, dead, v) := acc in
+      if dead then acc else
+      match c07_step_no_offline st i s with
+      | inl st' =>
+          let clean := snd (snd st') in
+          let cycles' := match ts_in s with
+                         | InClean => 0%nat
+                         | _ => if clean && step_cc s then S cycles else cycles
+                         end in
+          (st', cycles', S i, false, v)
+      | inr code =>
+          if Nat.ltb grace cycles then (st, cycles, S i, true, Some (i, code))
+          else (st, (if step_cc s then S cycles else cycles), S i, false, v)
+      end) l ((c, (c07_slaves0 c, false)), 0%nat, 0%nat, false, None) in
+  v.
+
+(* ------------------------------------------------------------------ C14: a turn is never declined silently
+   The code's rule (master.rs transmit_telegram): HighPrioOnly only decides whether a due Global_Control is
+   sent (No) or skipped (Yes); in both cases a master that is not stopped carries on with its peripherals.  It
+   returns None only (a) in Stop, (b) when the loop completed the cycle (cycle_completed reported), (c) after
+   a peripheral event raised in this call (Offline), (d) as the call that closes a cycle which the preceding
+   receive_reply completed (that reply reported cycle_completed; this call reports nothing).  So: a transmit
+   call on a master that is not stopped which returns None and reports neither cycle_completed nor a
+   peripheral event must directly follow (in callback order) a reply that reported cycle_completed.
+   Reason code 1411 (turn_skipped_on_high_prio: the seeded variant declines the turn while a Global_Control
+   is due and only high priority is allowed). *)
+Definition c14_silent_step (closing : bool) (i : nat) (s : tstep) : bool + Z :=
+  match view_of s with
+  | VNoTx =>
+      match ts_op s, ts_taken s with
+      | OpStop, _ => inl closing
+      | _, Some e =>
+          if ev_cycle_completed e || match ev_peripheral e with Some _ => true | None => false end
+          then inl false
+          else if closing then inl false else inr 1411
+      | _, None => inl false
+      end
+  | VReply _ _ => inl (step_cc s)
+  | VReq _ _ _ _ | VSdn _ _ => inl closing
+  | _ => inl closing
+  end.
+
+Definition c14_silent_none_monitor (l : list tstep) : verdict := run_monitor c14_silent_step false 0 l.
